@@ -293,6 +293,8 @@ def _generic_condition(tokeniser: 'Tokeniser', klass: Type[FlowConditionT]) -> G
                     raise ValueError('Unknown binary operator {}'.format(data[0]))
                 AND = BinaryOperator.AND
                 data = data[1:]
+                if not data:
+                    raise ValueError('Can not finish an expresion on an &')
 
 
 def any_port(tokeniser: 'Tokeniser') -> Generator[FlowAnyPort, None, None]:
